@@ -153,8 +153,8 @@ impl Parser {
                         .for_type(&TypecheckFlags::use_class(maybe_class_type.as_ref()))
                         .unwrap();
 
-                    if !key_type.eq_complex(
-                        map_type.key_type(),
+                    if !map_type.key_type().eq_complex(
+                        &key_type,
                         &TypecheckFlags::use_class(maybe_class_type.as_ref()),
                     ) {
                         errors.push(new_err(key_span, &input.user_data().get_source_file_name(), format!("This map expects keys with type `{}`, but instead found type `{key_type}`", map_type.key_type())))
@@ -165,9 +165,9 @@ impl Parser {
                         .unwrap();
 
                     // as in `m[k] = v`: a plain `T` is a present value of a map whose values are `T?`
-                    if !value_type.eq_complex(
-                        map_type.value_type(),
-                        &TypecheckFlags::use_class(maybe_class_type.as_ref()).lhs_unwrap(true),
+                    if !map_type.value_type().eq_complex(
+                        &value_type,
+                        &TypecheckFlags::use_class(maybe_class_type.as_ref()),
                     ) {
                         errors.push(new_err(value_span, &input.user_data().get_source_file_name(), format!("This map expects values with type `{}`, but instead found type `{value_type}`", map_type.value_type())))
                     }
